@@ -5,6 +5,7 @@ import (
 	"go/constant"
 	"go/token"
 	"go/types"
+	"sort"
 	"strings"
 
 	"golang.org/x/tools/go/ssa"
@@ -311,36 +312,59 @@ func checkC17(c *Ctx) {
 	}
 
 	// ---- (d) ---------------------------------------------------------------
-	ns := p.Func("imapclient", "", "NewStartTLS")
-	if ns == nil {
-		c.unresolvedRoot("imapclient.NewStartTLS")
+	// every function that upgrades a fresh client with startTLS and hands the
+	// client out (NewStartTLS today; any other entry point that would call
+	// startTLS itself tomorrow)
+	startTLS := p.Func("imapclient", "Client", "startTLS")
+	if startTLS == nil {
+		c.unresolvedRoot("(*Client).startTLS")
 	} else {
-		gf := mustFlow(ns, facts{}, func(f facts, i ssa.Instruction) facts {
-			if call, ok := i.(ssa.CallInstruction); ok && callKey(call) == "(*Client).Close" {
-				return f.with("closed")
+		owners := map[*ssa.Function]bool{}
+		for _, site := range callSitesOf(p, startTLS) {
+			f := site.Parent()
+			for f.Parent() != nil {
+				f = f.Parent()
 			}
-			return f
-		}, func(f facts, b *ssa.BasicBlock, s int) facts { return f.with(valueEdgeFacts(b, s)...) })
+			owners[f] = true
+		}
 		n := 0
-		for _, ret := range returnsOf(ns) {
-			fs, reach := gf.at(ret)
-			if !reach {
-				continue
+		var names []*ssa.Function
+		for f := range owners {
+			names = append(names, f)
+		}
+		sort.Slice(names, func(i, j int) bool { return fnKey(names[i]) < fnKey(names[j]) })
+		for _, ns := range names {
+			res := ns.Signature.Results()
+			if res.Len() == 0 || !strings.HasSuffix(res.At(0).Type().String(), "imapclient.Client") {
+				continue // does not hand out a client
 			}
-			if isNilConst(unspill(ret.Results[0])) {
-				// refusing paths after the greeting was seen must close the client
-				if fs.has("cmp:(*Client).State!=1") {
-					n++
-					c.check(fs.has("closed"), "C17.d", "NewStartTLS: PREAUTH path closes the client", ret.Pos(), "client closed before the error is returned", "the pre-authenticated client is abandoned without being closed")
+			name := fnKey(ns)
+			gf := mustFlow(ns, facts{}, func(f facts, i ssa.Instruction) facts {
+				if call, ok := i.(ssa.CallInstruction); ok && callKey(call) == "(*Client).Close" {
+					return f.with("closed")
 				}
-				continue
+				return f
+			}, func(f facts, b *ssa.BasicBlock, s int) facts { return f.with(valueEdgeFacts(b, s)...) })
+			for _, ret := range returnsOf(ns) {
+				fs, reach := gf.at(ret)
+				if !reach {
+					continue
+				}
+				if isNilConst(unspill(ret.Results[0])) {
+					// refusing paths after the greeting was seen must close the client
+					if fs.has("cmp:(*Client).State!=1") {
+						n++
+						c.check(fs.has("closed"), "C17.d", name+": PREAUTH path closes the client", ret.Pos(), "client closed before the error is returned", "the pre-authenticated client is abandoned without being closed")
+					}
+					continue
+				}
+				n++
+				c.check(fs.has("cmp:(*Client).State==1") && fs.has("ok:(*Client).startTLS"), "C17.d", name+": client returned only when NotAuthenticated", ret.Pos(),
+					"a client is returned only after startTLS succeeded and State() == NotAuthenticated", name+" hands out a client whose greeting was PREAUTH (authentication happened before TLS) or whose upgrade failed")
 			}
-			n++
-			c.check(fs.has("cmp:(*Client).State==1") && fs.has("ok:(*Client).startTLS"), "C17.d", "NewStartTLS: client returned only when NotAuthenticated", ret.Pos(),
-				"a client is returned only after startTLS succeeded and State() == NotAuthenticated", "NewStartTLS hands out a client whose greeting was PREAUTH (authentication happened before TLS) or whose upgrade failed")
 		}
 		if n < 2 {
-			c.unresolvedRoot("return paths of NewStartTLS")
+			c.unresolvedRoot("return paths of the functions that upgrade a client with startTLS")
 		}
 	}
 
@@ -350,6 +374,8 @@ func checkC17(c *Ctx) {
 
 	// ---- (e) ---------------------------------------------------------------
 	ruleOfferPredicates(c, "C17.e")
+	ruleGreetingAfterStateInit(c, "C17.e")
+	c.checkCanAuthAs("C17.e")
 	ruleCredentialsGated(c, "C17.e")
 }
 
